@@ -154,16 +154,25 @@ PROPS = {
                         "NEON scanner unverified; avx2_enabled() (cpuid) not executed, dispatch(use_avx2) checked for both values"],
     },
     "C16": {
-        "level": "other",
-        "explanation": "bounded, kernel sentence only: the second sentence of the property (each vectorised scanning kernel returns the same "
-                       "answer as its scalar counterpart for every buffer and start offset) is checked by Kani on the real kernels with the "
-                       "AVX2 flag nondeterministic (both the AVX2 and the SSE2 arm): classify_yaml_chars is complete per lane; the scanning "
-                       "kernels (find_newline, find_quote_or_escape, find_single_quote, count_leading_spaces, parse_anchor_name, "
-                       "find_block_scalar_end) for all 51-byte buffers (one 32-byte iteration, one 16-byte step, a scalar tail) and every "
-                       "start/end/min_indent. The first sentence (identical whole index and output across configurations) is NOT decided: it "
-                       "needs a proof about the 7k-line parser that consumes the kernels.",
-        "trusted_base": COMMON_TRUST + ["avx2_enabled() (env clamp + cpuid) replaced by a nondeterministic boolean"],
-        "assumptions": ["buffers of 51 bytes only; whole-index equality across kernel configurations not covered"],
+        "level": "proof",
+        "explanation": "The second sentence of the property (each vectorised scanning kernel returns the same answer as its scalar "
+                       "counterpart for every buffer and start offset) is PROVED: Verus checks the extracted text of all six kernel families "
+                       "-- find_newline, find_quote_or_escape, find_single_quote, count_leading_spaces (AVX2 + SSE2 + runtime dispatcher "
+                       "each), parse_anchor_name (scalar, AVX2, dispatcher) and find_block_scalar_end (scalar, AVX2, SSE2, dispatcher) -- for "
+                       "buffers of every length and every start/end/min_indent against the scalar definitions (first byte of the class; "
+                       "number of leading spaces; first terminator with the colon-lookahead rule; start of the first under-indented line), "
+                       "with the scalar loops themselves proved equal to those definitions where they are loops (anchor, block scalar). The "
+                       "x86 intrinsics are a lane model (set1/loadu/cmpeq/or/movemask as stubs with the SDM lane semantics) that Kani "
+                       "cross-checks on the real intrinsics for all vectors; every vector load's in-bounds condition is a proof obligation. "
+                       "Kani additionally proves classify_yaml_chars per lane and runs every kernel against its scalar counterpart on 51-byte "
+                       "buffers (replayable counterexamples). The FIRST sentence (identical whole index and output across kernel "
+                       "configurations) is NOT decided: it needs a proof about the 7k-line parser that consumes the kernels.",
+        "trusted_base": COMMON_TRUST + ["Verus 0.2026.09.13 + Z3; intrinsic lane model verus/speclib_simd.rs (Kani c16_intrinsic_lanes_256/_128)",
+                                        "avx2_enabled() (env clamp + cpuid) replaced by an arbitrary boolean",
+                                        "std iterator adapters in the scalar tails ((a..b).find, take_while(..).count()) replaced by stubs with their documented meaning"],
+        "assumptions": ["whole-index equality across kernel configurations (first sentence) not covered",
+                        "the simple scalar counterparts (find_newline_scalar etc., one-line iterator loops) are read as the definition rather than extracted",
+                        "NEON kernels not covered; inputs up to isize::MAX bytes"],
     },
     "C17": {
         "level": "proof",
